@@ -17,7 +17,8 @@ type Config struct {
 	DeferredSort   bool
 	MMPn, MMPd     int // MinMergePercentage = MMPn/MMPd
 	MaxPre         int
-	Concern        int // 0 disable, 1 allow, 2 force
+	NilInit        bool // map lower level: LowerLevelInit == nil
+	Concern        int  // 0 disable, 1 allow, 2 force
 	LevelMaxSegs   int
 	LevelMult      int
 	PctN, PctD     int // CompactionPercentage
@@ -273,6 +274,11 @@ func (h *H) open() error {
 		}
 		co := h.collOptions()
 		co.LowerLevelInit = h.mapLL.snapshot()
+		if h.cfg.NilInit && len(h.mapLL.cur.kvs) == 0 {
+			// an application lower level that starts empty may pass no initial snapshot at all:
+			// the collection's lower-level snapshot is then nil until the first update is published
+			co.LowerLevelInit = nil
+		}
 		co.LowerLevelUpdate = h.mapLL.update
 		c, err := moss.NewCollection(co)
 		if err != nil {
